@@ -2151,10 +2151,6 @@ void mmd_export_token_latex_raw(DString * out, const char * source, token * t, s
 		case TEXT_EMPTY:
 			break;
 
-		case TEXT_PERCENT:
-			print_const("\\%");
-			break;
-
 		default:
 			if (t->child) {
 				mmd_export_token_tree_latex_raw(out, source, t->child, scratch);
